@@ -154,8 +154,12 @@ class Gen:
                 key = json.dumps(kv, sort_keys=True)
                 if key in seen or (td["key"]["k"] in FLOATS and "7ff8" in key) or (td["key"]["k"] in FLOATS and "7fc0" in key):
                     continue
-                if td["key"]["k"] == "iface" and not self.comparable_vd(kv):
-                    continue
+                if td["key"]["k"] == "iface":
+                    # distinct Go keys must denote distinct wire values: strings and plain ints only
+                    kv = {"t": T("string"), "v": hx(self.rand_str())} if r.random() < 0.6 else {"t": T("int"), "v": str(r.randint(-50, 5000))}
+                    key = json.dumps(kv, sort_keys=True)
+                    if key in seen:
+                        continue
                 seen.add(key)
                 out.append([kv, self.value(td["e"], depth + 1, cyc)])
             return out
